@@ -57,6 +57,8 @@ Calls ==
     \* a partial that rebinds its own argument and hands it on: the new value is what every later read sees
     Render_(S("p3"), <<Arg("a", S("i"))>>), RenderWith(S("p3"), S("w"), "a", <<>>), RenderFor(S("p3"), Range(1, 2), "a", <<>>),
     Include_(S("p3"), <<Arg("a", S("i"))>>),
+    \* the loop object of the for-as form knows nothing of the caller's loops (the callers wrap every call in a loop as well)
+    RenderFor(S("p6"), Range(1, 2), "a", <<>>), Render_(S("p6"), <<>>),
     \* a name is looked up exactly as spelled: padded names are other names (and unknown here), under every policy
     Include_(S("p "), <<>>), Render_(S(" p"), <<>>), Render_(S("q "), <<>>), Include_(S(" "), <<>>),
     \* partials that print and then ask to continue / break: per element in the for-as form, through include in a caller loop
@@ -64,6 +66,7 @@ Calls ==
     Include_(S("p4"), <<Arg("a", S("i"))>>), Include_(S("p5"), <<Arg("a", S("i"))>>),
     Include_(S("empty"), <<>>), Render_(S("empty"), <<>>), Include_(S("blank"), <<>>), Render_(S("blank"), <<Arg("a", S("i"))>>) }
 
+W(n) == Render_(S("wrap"), <<Arg("which", S(n))>>)
 \* two uses of related names within one parser lifetime (both spellings of a
 \* name, a broken name whose .liquid twin is fine), in both orders
 Duals == { Render_(S("p"), <<>>), Include_(S("p.liquid"), <<>>), Render_(S("broken"), <<>>),
@@ -72,10 +75,12 @@ Callers ==
   {<<Assign_("a", S("s"))>> \o pre \o wrap \o <<Read("a"), Read("b"), Read("x"), Inc("a"), Cycle_, Txt("$")>> :
      pre \in {<<>>, <<Cycle_, Inc("a")>>},
      wrap \in UNION {{ <<c>>, <<Loop("x", <<Out(V("x")), c, Txt(";")>>)>>, <<Dead(<<c>>), Txt("d")>> } : c \in Calls}} \cup
-  {<<c1, Txt("|"), c2, Txt("|"), c1, Txt("$")>> : c1 \in Duals, c2 \in Duals}
+  {<<c1, Txt("|"), c2, Txt("|"), c1, Txt("$")>> : c1 \in Duals, c2 \in Duals} \cup
+  \* one compiled render tag (inside partial `wrap`) resolving different names in turn: every look-up starts from the bare name
+  {<<W(n1), W(n2), W(n3), Txt("$")>> : n1 \in {"p", "q"}, n2 \in {"p", "q", "broken"}, n3 \in {"p", "q"}}
 
 Parts(body) ==
-  [n \in {"p", "p2", "q.liquid", "broken", "broken.liquid", "p.liquid", "empty", "blank", "p3", "p4", "p5"} |->
+  [n \in {"p", "p2", "q.liquid", "broken", "broken.liquid", "p.liquid", "empty", "blank", "p3", "p4", "p5", "p6", "wrap"} |->
      CASE n = "p" -> [ok |-> TRUE, body |-> body]
        [] n = "p2" -> [ok |-> TRUE, body |-> P2Body]
        [] n = "q.liquid" -> [ok |-> TRUE, body |-> <<Txt("Q"), Read("a")>>]
@@ -84,6 +89,9 @@ Parts(body) ==
        [] n = "p.liquid" -> [ok |-> TRUE, body |-> <<Txt("PL"), Read("b")>>]
        [] n = "p3" -> [ok |-> TRUE, body |-> <<Assign_("a", S("q")), Render_(S("p2"), <<Arg("b", V("a"))>>), Include_(S("p2"), <<Arg("b", V("a"))>>),
                                               Assign_("a", Lit(BoolV(FALSE))), Read("a"), Assign_("x", Lit(NilV)), Read("x")>>]
+       [] n = "p6" -> [ok |-> TRUE, body |-> <<[t |-> "if", cond |-> [c |-> "truthy", x |-> Var("forloop", <<S("parentloop")>>)], then |-> <<Txt("P")>>, else |-> <<Txt("-")>>],
+                                              [t |-> "if", cond |-> [c |-> "truthy", x |-> V("forloop")], then |-> <<Out(Dot("forloop", "index"))>>, else |-> <<Txt("n")>>]>>]
+       [] n = "wrap" -> [ok |-> TRUE, body |-> <<Txt("["), Render_(V("which"), <<>>), Txt("]")>>]
        [] n = "p4" -> [ok |-> TRUE, body |-> <<Out(V("a")), [t |-> "continue"], Txt("!")>>]
        [] n = "p5" -> [ok |-> TRUE, body |-> <<Out(V("a")), [t |-> "break"], Txt("!")>>]
        [] n = "empty" -> [ok |-> TRUE, body |-> <<>>]
